@@ -54,9 +54,13 @@ func stdSeqConcat(_ context.Context, seq rel.Value) (rel.Value, error) {
 		return rel.NewString([]rune(sb.String())), nil
 	case rel.Set:
 		result := v0
-		for _, value := range values[1:] {
+		for i, value := range values[1:] {
+			set, is := value.(rel.Set)
+			if !is {
+				return nil, fmt.Errorf("//seq.concat: array item %d not a set: %v", i+1, value)
+			}
 			var err error
-			result, err = rel.Concatenate(result, value.(rel.Set))
+			result, err = rel.Concatenate(result, set)
 			if err != nil {
 				return nil, err
 			}
